@@ -242,6 +242,63 @@ theorem ackd_implies_servable_partial (parseKV : Bytes → Option Bytes) (maxChu
     simp only [wpDrainStrict, hi, h1, h2, h3, h4, strictLoop_encode parseKV wf evs hwf hok]
     rfl
 
+/-- what the repaired `init` (regenerated fact `wpInitValidatesEvents = true`, /repo c6bbc14) guarantees of every iterator it
+hands out: the strict decoder accepts the events area -/
+theorem wpInit_ok_validated (parseKV : Bytes → Option Bytes) (body : Bytes) (it : WpIter)
+    (h : wpInit parseKV body = .ok it) :
+    ∃ es, strictLoop parseKV it.flds it.recs it.rest = some es ∧ it.read = false ∧ it.cur = 0 ∧
+      it.rest.length ≤ body.length := by
+  have hf : Generated.C01.wpInitValidatesEvents = true := by decide
+  unfold wpInit at h
+  simp only [hf, ↓reduceIte] at h
+  repeat' split at h
+  all_goals first
+    | (simp at h; done)
+    | (simp only [Out.ok.injEq] at h; subst h; exact ⟨_, ‹_›, rfl, rfl, by simp only [List.length_drop]; omega⟩)
+
+/-- **Whatever packet the server accepts is a strictly well-formed packet, and the events it stores are the ones the strict
+decoder yields** — for EVERY request body (truncated, corrupted, any field text) and every field parser: a packet with fewer
+events than announced, or with an event whose own field text does not parse, is never drained (former findings F20b/F20c). -/
+theorem acked_packet_is_strict (parseKV : Bytes → Option Bytes) (body tags : Bytes) (es : List Event)
+    (h : wpDrain parseKV body = .ok (tags, es)) : wpDrainStrict parseKV body = some (tags, es) := by
+  unfold wpDrain at h
+  cases hi : wpInit parseKV body with
+  | err => simp [hi] at h
+  | panic => simp [hi] at h
+  | ok it =>
+    obtain ⟨es', hs, hr, hc, hl⟩ := wpInit_ok_validated parseKV body it hi
+    have hn := strictLoop_len parseKV it.flds it.recs it.rest es' hs
+    have hloop := strict_implies_loop parseKV it.recs it es' (body.length + 1) hs hr (by omega) (by omega)
+    simp only [hi, hloop, Out.ok.injEq, Prod.mk.injEq] at h
+    simp only [wpDrainStrict, hi, hs, Option.map_some, h.1, h.2]
+
+/-- **Acknowledged ⇒ servable and faithful, with only F20a's class excluded**: for EVERY request body the server
+acknowledges over a readable partition — provided the records it produces fit `maxRecordSize` (the one open class, F20a) —
+the partition afterwards reads back as the old events followed by the acknowledged ones (every chunk size, alignment, batch
+size), and the acknowledged events are exactly what the strict decoder yields for that body. -/
+theorem ackd_implies_servable (parseKV : Bytes → Option Bytes) (maxChunk maxRec : Nat) (j j' : Journal) (body : Bytes)
+    (es old : List Event) (hm : 1 ≤ maxChunk) (hold : readEvents maxRec j = some old)
+    (hack : serveWrite parseKV maxChunk j body = some (j', es))
+    (hfit : ∀ e ∈ es, e.WF ∧ e.marshal.length ≤ maxRec) :
+    readEvents maxRec j' = some (old ++ es) ∧ ∃ tags, wpDrainStrict parseKV body = some (tags, es) := by
+  unfold serveWrite at hack
+  cases hd : wpDrain parseKV body with
+  | err => simp [hd] at hack
+  | panic => simp [hd] at hack
+  | ok p =>
+    obtain ⟨tags, es0⟩ := p
+    simp only [hd] at hack
+    obtain ⟨e1, e2, _⟩ := write_appends maxChunk hm j (es0.map recOf)
+    simp only [e1, Bool.false_eq_true, ↓reduceIte, Option.some.injEq, Prod.mk.injEq] at hack
+    obtain ⟨hj, hes⟩ := hack
+    subst hes
+    refine ⟨?_, tags, acked_packet_is_strict parseKV body tags es0 hd⟩
+    rw [← hj]
+    unfold readEvents at hold ⊢
+    have hdata : List.map (fun x => x.data) (List.map recOf es0) = es0.map (fun e => (recOf e).data) := by
+      rw [List.map_map]; rfl
+    rw [e2, decodeAll_append, hold, hdata, decodeAll_marshal maxRec es0 hfit]; rfl
+
 /-- the parser used by the counterexamples: `w=1`-style texts are irrelevant; only `""` parses -/
 def onlyEmpty (t : Bytes) : Option Bytes := if t = [] then some [] else none
 
@@ -253,7 +310,8 @@ theorem cex_oversize_record_acknowledged :
      | some (j', es) => decide (es = [⟨1, [1, 2, 3, 4, 5], []⟩] ∧ readEvents 12 j' = none)
      | none => false) = true := by decide
 
-/-- **Counterexample, class (ii)** (of the code as long as `init` does not validate the events: regenerated fact): a request
+/-- **Retired counterexample, class (ii)** — a statement about the OTHER branch of the regenerated fact (the code before
+/repo c6bbc14, `wpInitValidatesEvents = false`; vacuous on the current tree, see `repaired_init_rejects`): a request
 body cut one byte short of its second event is acknowledged with the first event only; the strict decoder rejects it. -/
 theorem cex_truncated_packet_acknowledged : Generated.C01.wpInitValidatesEvents = false →
     let body := (wpEncode [] [] [⟨1, [65], [], []⟩, ⟨2, [66], [], []⟩]).dropLast
@@ -261,7 +319,7 @@ theorem cex_truncated_packet_acknowledged : Generated.C01.wpInitValidatesEvents 
      | some (_, es) => decide (es = [⟨1, [65], []⟩])
      | none => false) = true ∧ wpDrainStrict onlyEmpty body = none := by decide
 
-/-- **Counterexample, class (iii)** (same proviso): an event whose field text does not parse is acknowledged and stored
+/-- **Retired counterexample, class (iii)** (same proviso, vacuous on the current tree): an event whose field text does not parse is acknowledged and stored
 without its fields; the strict decoder rejects the packet. -/
 theorem cex_unparsable_fields_dropped : Generated.C01.wpInitValidatesEvents = false →
     let body := wpEncode [] [] [⟨1, [65], [], ofAscii "oops"⟩]
@@ -269,10 +327,10 @@ theorem cex_unparsable_fields_dropped : Generated.C01.wpInitValidatesEvents = fa
      | some (_, es) => decide (es = [⟨1, [65], []⟩])
      | none => false) = true ∧ wpDrainStrict onlyEmpty body = none := by decide
 
-/-- **The proposed repair** (`proposed-fixes/F20bc.diff`: `wpIterator.init` decodes every announced event and parses its field
-text before anything is written): once the source has it (regenerated fact), both witnesses are rejected as a whole — nothing
-is stored, not even the events before the bad one. -/
-theorem repaired_init_rejects : Generated.C01.wpInitValidatesEvents = true →
+/-- **Regression statement for former findings F20b/F20c** (/repo c6bbc14: `wpIterator.init` decodes every announced event and
+parses its field text before anything is written): the witnesses are rejected as a whole — nothing is stored, not even the
+events before the bad one. Unconditional: reverting the repair flips the regenerated fact and breaks this theorem. -/
+theorem repaired_init_rejects :
     serveWrite onlyEmpty 100 [] (wpEncode [] [] [⟨1, [65], [], []⟩, ⟨2, [66], [], []⟩]).dropLast = none ∧
     serveWrite onlyEmpty 100 [] (wpEncode [] [] [⟨1, [65], [], ofAscii "oops"⟩]) = none ∧
     serveWrite onlyEmpty 100 [] (wpEncode [] [] [⟨1, [65], [], []⟩, ⟨2, [66], [], ofAscii "oops"⟩]) = none := by decide
